@@ -1,10 +1,18 @@
+mod bvm;
 mod cases;
 mod core;
 mod ds;
 mod gen;
+mod iters;
 mod minimise;
+mod pf;
 mod prng;
+mod qvb;
+mod ser;
+mod simdisk;
+mod spec;
 mod sup;
+mod thr;
 mod trees;
 
 use crate::core::Tier;
@@ -27,6 +35,65 @@ pub fn cases_assumptions(prop: &str) -> Vec<String> {
     }
 }
 
+/// Engines beyond the main batch: C09 compares per-run answer digests with the build that lacks the crate's
+/// `prefetch` feature.
+fn extra_engines(prop: &str, tier: Tier, seed: u64, planned: u64, first: &std::collections::BTreeMap<u64, u64>) -> sup::Extra {
+    let mut ex = sup::Extra {
+        coverage: Default::default(),
+        found: vec![],
+        harness_errors: vec![],
+        evaluations: 0,
+    };
+    if prop == "C09" {
+        match std::env::var("QSIM_BIN_NOPF") {
+            Ok(bin) => {
+                let total = first.keys().next_back().map_or(0, |m| m + 1).min(planned);
+                let br = sup::run_batch(std::path::Path::new(&bin), prop, tier, seed, total, sup::n_workers_pub());
+                let mut differing = vec![];
+                for (r, d) in &br.digests {
+                    if first.get(r) != Some(d) {
+                        differing.push(*r);
+                    }
+                }
+                ex.evaluations += br.evaluations;
+                for (r, case, v) in br.viols {
+                    ex.found.push(("nopf".to_string(), r, case, v));
+                }
+                ex.harness_errors.extend(br.harness_errors);
+                ex.coverage.insert(
+                    "cross_build".into(),
+                    serde_json::json!({
+                        "what": "per-run digest of every rank / rank_prefetch / get answer, feature `prefetch` on vs off",
+                        "runs_compared": br.digests.len(),
+                        "runs_differing": differing.len(),
+                        "batch_digest_feature_off": format!("{:016x}", br.batch_digest),
+                    }),
+                );
+                for r in differing.into_iter().take(3) {
+                    let case = cases::gen(prop, seed, tier, r);
+                    ex.found.push((
+                        "external".to_string(),
+                        r,
+                        case,
+                        crate::core::Violation {
+                            sig: crate::core::Sig {
+                                property: "C09".into(),
+                                family: "quad_trees".into(),
+                                op: "all_queries".into(),
+                                class: "answers_differ_between_feature_on_and_off".into(),
+                                shape: "general".into(),
+                            },
+                            detail: format!("run {r}: the answer digest of the build with the `prefetch` feature differs from the build without it"),
+                        },
+                    ));
+                }
+            }
+            Err(_) => ex.harness_errors.push("QSIM_BIN_NOPF is not set (run through /verif/check)".into()),
+        }
+    }
+    ex
+}
+
 fn usage() -> i32 {
     eprintln!("usage: qsim <C02|C03|...> quick|thorough | replay <file> | worker ... | one ... | minimise <in> <out> | exec-case <file>");
     2
@@ -44,7 +111,7 @@ fn main() {
         "exec-case" if args.len() == 2 => sup::exec_case_main(&args[1]),
         "minimise" if args.len() == 3 => minimise::minimise_main(&args[1], &args[2]),
         p if cases::CLAIMED.contains(&p) && args.len() >= 2 => match Tier::parse(&args[1]) {
-            Some(tier) => sup::check_main(p, tier, &|_, _| sup::Extra { coverage: Default::default(), found: vec![], harness_errors: vec![], evaluations: 0 }),
+            Some(tier) => sup::check_main(p, tier, &|tier, seed, planned, first| extra_engines(p, tier, seed, planned, first)),
             None => usage(),
         },
         _ => usage(),
